@@ -110,6 +110,29 @@ def run(ck):
   sub = core.Check(ck.pid, ck.level, ck.tier, ck.seed, parent=ck)
   ds_replay(sub, [bad], "selftest")
   ck.selftest("R: corrupted expected statistics refresh is flagged", len(sub.violations) > 0)
+  # ---- R: Distributed Shampoo in frequent-directions mode (gradient-averaging windows, reset) ----
+  ck.mc("DSFDControl_MC", "DSFDControl_MC", required_actions=["Update"])
+  fbeh = ck.gen("DSFDControl_Gen", "DSFDControl_Gen")
+  fjobs = [{"cfg": b["cfg"], "steps": b["steps"], "seed": ck.seed * 1000 + i} for i, b in enumerate(fbeh)]
+  fres = core.run_workers("harness.workers.ds_fdcadence", fjobs, work=ck.work)
+  mass = 0.0
+  for j, r in zip(fjobs, fres):
+    ck.count(1, key=["dsfd", j["cfg"]])
+    if r["error"]:
+      ck.violation(f"ds|fd|{'internal_error' if r['kind'] == 'internal' else 'rejected'}",
+                   f"FD cadence run raised {r['error']} cfg={j['cfg']}", {"job": j, "tb": r["tb"]})
+      continue
+    ck.calib("fd_sketch_twin", r["worst"]["fd_sketch_twin"], 1e-3)
+    ck.calib("fd_tail_twin", r["worst"]["fd_tail_twin"], 1e-3)
+    mass = max(mass, r["worst"]["fd_sketch_mass"])
+    if r["mismatches"]:
+      m = r["mismatches"][0]
+      ck.violation(f"ds|fd|{m['clause']}", f"DSFDControl_Gen replay cfg={j['cfg']} step {m['step']}: {m['clause']} "
+                   f"{m.get('detail', '')}", {"job": j, "mismatches": r["mismatches"][:8]})
+    else:
+      ck.traces_ok(1)
+  if mass <= 0.0:
+    raise core.MachineryError("vacuous: FD sketches are all zero")
   # ---- R: Tearfree ------------------------------------------------------------------
   tf_cadence.replay(ck)
   # ---- V ------------------------------------------------------------------------
